@@ -90,10 +90,11 @@ def build(layout, seed):
                    "exportdir": (s0 + 0x10, s0 + 0x38), "filler_a": (s0 + 0x60, cfg_off), "config": (cfg_off, tail_start), "filler_b": (tail_start, len(img))}
         sec0 = lf + 24 + optsz
         fields = {"e_lfanew": (0x3C, 4, 0), "n_sections": (lf + 6, 2, 0), "opt_size": (lf + 20, 2, 0), "export_rva": (lf + 24 + (112 if info["arch"] == "x64" else 96), 4, 0),
+                  "export_size": (lf + 24 + (112 if info["arch"] == "x64" else 96) + 4, 4, 0), "sec_vaddr": (sec0 + 12, 4, 0),
                   "sec_rawptr": (sec0 + 20, 4, 0), "sec_vsize": (sec0 + 8, 4, 0), "sec_rawsize": (sec0 + 16, 4, 0), "size_of_headers": (lf + 24 + 60, 4, 0), "machine": (lf + 4, 2, 0),
                   "setting_length": (cfg_off + bf["setting_length"][0], 2, 0x2E)}
         if layout == "pe":
-            return dict(data=bytes(img), regions=regions, fields=fields, le={"e_lfanew", "n_sections", "opt_size", "export_rva", "sec_rawptr", "sec_vsize", "sec_rawsize", "size_of_headers", "machine"})
+            return dict(data=bytes(img), regions=regions, fields=fields, le={"e_lfanew", "n_sections", "opt_size", "export_rva", "export_size", "sec_vaddr", "sec_rawptr", "sec_vsize", "sec_rawsize", "size_of_headers", "machine"})
         stub = b"\x90" * 57 + b"\xff\xff\xff"
         nonce = bytes(rng.randrange(1, 255) for _ in range(4))
         data = xorenc.stage(stub, nonce, bytes(img))
@@ -304,6 +305,11 @@ def run(ctx):
     singles = [s for s in scen if len(s[1]) <= 1]
     pairs = [s for s in scen if len(s[1]) == 2]
     chosen = singles + rng.sample(pairs, min(len(pairs), 350 if q else 6000))
+    # pairs of crafted fields that belong to one structure are always replayed (export directory x section geometry, header sizes)
+    together = {"export_rva", "export_size", "sec_vaddr", "sec_rawptr", "sec_vsize", "sec_rawsize", "guard_opt_length", "guard_checksum_length", "guard_terminator"}
+    keyf = lambda s: (s[0], repr(s[1]))  # noqa: E731
+    have = {keyf(s) for s in chosen}
+    chosen += [s for s in pairs if all(f["k"] == "set" and f["field"] in together for f in s[1]) and keyf(s) not in have]
     harmless = lambda f: f["k"] in ("flip", "dup") and f["region"] in ("filler_a", "filler_b", "enc_tail", "body")  # noqa: E731  (Faults.Harmless)
     jobs = [("model", lay, fl, ctx.seed * 100 + i % 7) for i, (lay, fl) in enumerate(chosen)]
     # unstructured inputs: random bytes, and truncations / corruptions / splices of real samples
